@@ -92,6 +92,8 @@ PyEval(P, env) ==
                          IN IF c = Bad THEN Bad ELSE <<"fv", P[2], c>>
       [] P[1] = "eq"  -> LET a == PyEval(P[2], env)  b == PyEval(P[3], env)
                          IN IF a = Bad \/ b = Bad THEN Bad ELSE PyBool(a = b)
+      [] P[1] = "or"  -> LET a == PyEval(P[2], env)                  \* (P) or k   (k if P is 0, else P)
+                         IN IF a = Bad \/ a[1] # "i" THEN Bad ELSE IF a[2] = 0 THEN <<"i", P[3]>> ELSE a
       [] P[1] = "sub" -> LET a == PyEval(P[2], env)                  \* (P) - k
                          IN IF a = Bad \/ a[1] # "i" THEN Bad ELSE <<"i", a[2] - P[3]>>
       [] P[1] = "len" -> LET a == PyEval(P[2], env)
